@@ -1077,7 +1077,7 @@ class TorConfig:
                         else:
                             initial = [default]
                 else:
-                    initial = [self.parsers[rn].parse(v)]
+                    initial = v if isinstance(v, list) else [v]
                 self.config[rn] = _ListWrapper(
                     initial, functools.partial(self.mark_unsaved, rn))
 
